@@ -52,6 +52,33 @@ fn main() {
                 }
             }
         }
+        "pp" if args.len() >= 3 => {
+            // debugging aid: preprocess literal text, print output / error and origins
+            let src = args[2].replace("\\n", "\n");
+            let strip = args.iter().any(|a| a == "--strip");
+            let mut d = util::api::Defs::new();
+            for a in &args[3..] {
+                if let Some(n) = a.strip_prefix("-D") {
+                    d.insert(n.to_string(), None);
+                }
+            }
+            match util::api::pp_str(&src, std::path::Path::new("top.sv"), &d, &[] as &[std::path::PathBuf], false, strip) {
+                Ok(Ok((pt, defs))) => {
+                    println!("text: {:?}", pt.text());
+                    println!("origins: {:?}", (0..pt.text().len()).map(|i| pt.origin(i).map(|(_, o)| o as i64).unwrap_or(-1)).collect::<Vec<_>>());
+                    println!("defines: {:?}", util::api::defs_sig(&defs, false, false));
+                    0
+                }
+                Ok(Err(e)) => {
+                    println!("error: {}", util::api::err_sig(&e));
+                    1
+                }
+                Err(p) => {
+                    println!("panic: {}", p);
+                    1
+                }
+            }
+        }
         "list" => {
             for p in props::ALL {
                 println!("{}", p);
